@@ -318,6 +318,52 @@ impl Xf {
             "RotateZ" => Xf::RotateZ { angle: angle(rng), c: coord3(rng) },
             _ => unreachable!("unknown transform {name}"),
         }
+        .with_special_centre(rng, flat)
+    }
+
+    /// One rotation in eight gets a centre that is far away along the axis
+    /// and almost - not exactly - on it (a hinge of a long part): the axis
+    /// line then passes the origin at a small distance, and the angle is a
+    /// large one
+    fn with_special_centre(mut self, rng: &mut Rng, flat: bool) -> Xf {
+        if flat || !rng.chance(0.125) {
+            return self;
+        }
+        let axis: Option<P3> = match &self {
+            Xf::Rotate { v, .. } => Some(unit(f3(*v))),
+            Xf::RotateX { .. } => Some([1.0, 0.0, 0.0]),
+            Xf::RotateY { .. } => Some([0.0, 1.0, 0.0]),
+            Xf::RotateZ { .. } => Some([0.0, 0.0, 1.0]),
+            _ => None,
+        };
+        let Some(a) = axis else { return self };
+        let t = rng.uniform((1.0f64).ln(), (1000.0f64).ln()).exp() * if rng.chance(0.5) { 1.0 } else { -1.0 };
+        // perpendicular offset: 1e-6 .. 1e-3 of the distance along the axis
+        let rel = rng.uniform((1e-6f64).ln(), (1e-3f64).ln()).exp();
+        let r = [rng.uniform(-1.0, 1.0), rng.uniform(-1.0, 1.0), rng.uniform(-1.0, 1.0)];
+        let mut perp = sub(r, mul(a, dot(r, a)));
+        if norm(perp) < 1e-3 {
+            return self;
+        }
+        perp = mul(unit(perp), t.abs() * rel);
+        let c = add(mul(a, t), perp);
+        let c32 = [c[0] as f32, c[1] as f32, c[2] as f32];
+        let big = *rng.pick(&[180.0f32, 90.0, -90.0, 120.0, 170.0, -135.0]);
+        match &mut self {
+            Xf::Rotate { c, angle, .. } | Xf::RotateX { c, angle } | Xf::RotateY { c, angle } | Xf::RotateZ { c, angle } => {
+                *c = c32;
+                *angle = big;
+            }
+            _ => {}
+        }
+        self
+    }
+
+    fn centre_magnitude(&self) -> f64 {
+        match self {
+            Xf::Rotate { c, .. } | Xf::RotateX { c, .. } | Xf::RotateY { c, .. } | Xf::RotateZ { c, .. } => linf(f3(*c)),
+            _ => 0.0,
+        }
     }
 
     fn name(&self) -> &'static str {
@@ -1160,7 +1206,8 @@ fn check_xf(cx: &mut Cx, rng: &mut Rng, name: &str, used: &mut Vec<&'static str>
             return desc;
         }
         let got = ev.at(nt, p);
-        let (want, spread) = ev.around(ns, q, linf(p));
+        // (a far rotation centre is subtracted and added back in f32)
+        let (want, spread) = ev.around(ns, q, linf(p).max(xf.centre_magnitude() * 0.01));
         match value_ok(got, want, spread) {
             None => cx.skip("ill_conditioned"),
             Some(ok) => {
@@ -1180,6 +1227,44 @@ fn check_xf(cx: &mut Cx, rng: &mut Rng, name: &str, used: &mut Vec<&'static str>
                     );
                 }
             }
+        }
+    }
+    // the argument is imported into a context, the context is cleared, and
+    // the transformed shape - which shares the argument's tree - is imported
+    // into the same context: it must evaluate as in a new context
+    if rng.chance(0.25) {
+        let mut ctx = Context::new();
+        let _ = ctx.import(&s.tree);
+        let _ = ctx.import(&xf.apply(s.tree.clone()));
+        ctx.clear();
+        let again = guarded(|| {
+            let n = ctx.import(&xf.apply(s.tree.clone()));
+            (0..12)
+                .map(|_| {
+                    let p = point(rng, 5.0);
+                    (p, ctx.eval_xyz(n, p[0] as f32, p[1] as f32, p[2] as f32).map(|v| v as f64))
+                })
+                .collect::<Vec<_>>()
+        });
+        cx.st.inc("reimports_after_clear");
+        match again {
+            Ok(vals) => {
+                for (p, v) in vals {
+                    let fresh = ev.at(nt, p);
+                    match v {
+                        Ok(v) if v.to_bits() == fresh.to_bits() || (v.is_nan() && fresh.is_nan()) => {}
+                        other => {
+                            cx.bad(
+                                &format!("{name}:reimport_after_clear"),
+                                format!("imported again into a cleared context the shape evaluates to {other:?}, in a new context to {fresh:e}"),
+                                json!({"shape": desc, "p": p}),
+                            );
+                            break;
+                        }
+                    }
+                }
+            }
+            Err(pi) => cx.bad(&format!("{name}:reimport_after_clear"), format!("import into a cleared context panicked: {}", pi.msg), json!({"shape": desc})),
         }
     }
     // extreme magnitudes: scale factors far outside [0.1, 10] (a model in
